@@ -66,7 +66,7 @@ def run_pair(kind, n, m, code):
         sol.declare("hx_probe", "(_ BitVec 64)")
         for v in xs + ys:
             sol.declare(v, "(_ BitVec 64)")
-        it = heapex.Interp(fns, consts, sol, resolver, max_alloc=4)
+        it = heapex.Interp(fns, consts, sol, resolver, max_alloc=8)
         it.enums = {"OwnedTerm": enum}
         # expected ordering as three SMT Bools
         less, eq = spec_lex(xs, ys)
@@ -147,7 +147,7 @@ def run(tier, out):
     except (mir.MirError, OSError, AttributeError) as e:
         out.append(_rec("c12_seq_encode", "INCONCLUSIVE", time.time() - t0, notes=["cannot dump/parse MIR: %s" % e]))
         return
-    top = 4 if tier == "quick" else 5
+    top = 5 if tier == "quick" else 8
     for kind, lo in (("tuple", 0), ("list", 1)):
         for n in range(lo, top):
             for m in range(lo, top):
